@@ -3,7 +3,7 @@
 set -u
 P=$1; WT=$2; I=$3
 SRC=$WT/seed_out
-ID=$P-s$I
+ID=$P-${4:-s}$I
 D=/verif/seeded/$ID
 [ -f $SRC/patch_$I.diff ] || { echo "no patch"; exit 2; }
 COPY=$(mktemp -d /tmp/seedverify-XXXXXX)
